@@ -42,6 +42,22 @@ theorem memcpy_block {s : St K} {d : Nat} {src : Option Nat} {n : Nat} {bd l : L
       · simp [take_append_drop_len hl hbd]
       · intro b hb; simp [upd_other _ _ hb]
 
+/-- the guarded `if (sz) memcpy(…)` of a whole block into a block of the same size -/
+theorem memcpyIf_block {s : St K} {d : Nat} {src : Option Nat} {n : Nat} {bd l : List K}
+    (hd : s.heap d = some bd) (hbd : bd.length = n)
+    (hsrc : ∀ r, src = some r → s.heap r = some l) (hsn : src = none → n = 0)
+    (hl : l.length = n) :
+    ∃ s2, memcpyIf s (some d) src n = .ok s2 ∧ s2.heap d = some l ∧
+      (∀ b, b ≠ d → s2.heap b = s.heap b) ∧ s2.objs = s.objs ∧ s2.next = s.next ∧
+      s2.leaked = s.leaked := by
+  by_cases hn : n = 0
+  · subst hn
+    refine ⟨s, by simp [memcpyIf], ?_, by intros; rfl, rfl, rfl, rfl⟩
+    rw [hd]; congr 1
+    rw [List.length_eq_zero_iff] at hbd hl; rw [hbd, hl]
+  · have : memcpyIf s (some d) src n = memcpy s (some d) src n := by simp [memcpyIf, hn]
+    rw [this]; exact memcpy_block hd hbd hsrc hsn hl
+
 /-- what an operation does, stated for both outcomes -/
 @[reducible] def Post (sp : Except Stop (Vals K)) : Except Stop (St K) → Prop
   | .ok s' => Inv s' ∧ sp = .ok (val s')
@@ -116,14 +132,14 @@ theorem upd_self {α : Type} (f : Nat → α) (i : Nat) : upd f i (f i) = f := b
     (copy constructor; reallocating branch of copy assignment) -/
 theorem copy_install (s : St K) (h : Inv s) (i j : Nat) (x : Obj) (hj : s.objs j = some x)
     (l : List K) (hl : val s j = some l) :
-    ∃ s2, memcpy (alloc s x.sz).1 (some s.next) x.rep x.sz = .ok s2 ∧
+    ∃ s2, memcpyIf (alloc s x.sz).1 (some s.next) x.rep x.sz = .ok s2 ∧
       Inv (setObj s2 i (some ⟨some s.next, x.sz⟩)) ∧
       val (setObj s2 i (some ⟨some s.next, x.sz⟩)) = upd (val s) i (some l) := by
   obtain ⟨l', hl', hlen, hblk, _⟩ := val_of_obj h hj
   rw [hl] at hl'; cases hl'
   have hfresh : ∀ r, x.rep = some r → r ≠ s.next := by
     intro r hr; have := (h.owned j x r hj hr).1; omega
-  obtain ⟨s2, h1, h2, h3, h4, h5, _⟩ := memcpy_block
+  obtain ⟨s2, h1, h2, h3, h4, h5, _⟩ := memcpyIf_block
     (s := { s with heap := upd s.heap s.next (some (List.replicate x.sz default)), next := s.next + 1 })
     (d := s.next) (src := x.rep) (n := x.sz) (bd := List.replicate x.sz default) (l := l)
     (by simp) (by simp)
@@ -257,6 +273,10 @@ theorem assign_realloc (s s0 : St K) (h : Inv s) (e0 : s0.heap = s.heap ∧ s0.n
       (by rw [hv0]; exact hl)
     have e2 : (alloc s0 x.sz).2 = s0.next := rfl
     rw [e2] at hs
+    have e3 : memcpyIf (alloc s0 x.sz).1 (some s0.next) x.rep x.sz
+        = memcpy (alloc s0 x.sz).1 (some s0.next) x.rep x.sz := by
+      simp [memcpyIf, Nat.ne_of_gt hx]
+    rw [e3] at h1
     simp only [h1, bind, Except.bind] at hs; subst hs
     exact ⟨h2, by rw [h3, hv0]⟩
   · simp only [hx, if_false] at hs
@@ -290,12 +310,11 @@ theorem refines_assign (s : St K) (h : Inv s) (i j : Nat) : Refines s (.assign i
         by_cases hsz : t.sz = x.sz
         · simp only [hsz, if_true] at hs
           by_cases hz : x.sz = 0
-          · -- both empty: memcpy(rep, x.rep, 0)
+          · -- both empty: `if (sz)` skips the memcpy
             rw [hz] at hs
-            obtain ⟨s2, h1, h2, h3, h4, _⟩ := memcpy_zero s t.rep x.rep
-            rw [h1] at hs; subst hs
-            refine ⟨inv_congr h2 h4 h3 h, ?_⟩
-            congr 1; rw [val_congr h2 h3]
+            simp only [memcpyIf, if_true] at hs; subst hs
+            refine ⟨h, ?_⟩
+            congr 1
             have : l = lt := by
               rw [List.length_eq_zero_iff.1 (by omega : l.length = 0),
                   List.length_eq_zero_iff.1 (by omega : lt.length = 0)]
@@ -303,7 +322,7 @@ theorem refines_assign (s : St K) (h : Inv s) (i j : Nat) : Refines s (.assign i
           · rcases htr : t.rep with _ | d
             · exact absurd (h.null i t hi htr) (by omega)
             · rw [htr] at hs
-              obtain ⟨s2, h1, h2, h3, h4, h5, _⟩ := memcpy_block (s := s) (d := d) (src := x.rep)
+              obtain ⟨s2, h1, h2, h3, h4, h5, _⟩ := memcpyIf_block (s := s) (d := d) (src := x.rep)
                 (n := x.sz) (bd := lt) (l := l) (hltblk d htr) (by omega) hblk
                 (by intro hr; exact h.null j x hj hr) hlen
               rw [h1] at hs; subst hs
@@ -525,5 +544,143 @@ theorem run_refines (ops : List (Op K)) : ∀ (s : St K), Inv s →
       obtain ⟨h1, hsp⟩ := step_ok h hs
       simp only [hsp, bind, Except.bind]
       exact ih s1 h1
+
+
+/-! ### `memcpy` never receives a null pointer (code after commit 87f5175) -/
+
+theorem memcpy_ubNull {s s2 : St K} {dst src : Option Nat} {n : Nat} (hn : n ≠ 0)
+    (h : memcpy s dst src n = .ok s2) : s2.ubNull = s.ubNull := by
+  unfold memcpy at h
+  simp only [hn, if_false] at h
+  split at h
+  · split at h
+    · split at h
+      · cases h; rfl
+      · cases h
+    · cases h
+  · cases h
+
+theorem memcpyIf_ubNull {s s2 : St K} {dst src : Option Nat} {n : Nat}
+    (h : memcpyIf s dst src n = .ok s2) : s2.ubNull = s.ubNull := by
+  unfold memcpyIf at h
+  by_cases hn : n = 0
+  · simp only [hn, if_true] at h; cases h; rfl
+  · simp only [hn, if_false] at h; exact memcpy_ubNull hn h
+
+theorem free_ubNull {s s1 : St K} {p : Option Nat} (h : free s p = .ok s1) : s1.ubNull = s.ubNull := by
+  unfold free at h
+  split at h
+  · cases h; rfl
+  · split at h
+    · cases h; rfl
+    · cases h
+
+/-- no special member calls `memcpy` with a null pointer: the counter never moves -/
+theorem step_ubNull {s s' : St K} {op : Op K} (h : step s op = .ok s') : s'.ubNull = s.ubNull := by
+  cases op with
+  | ctor i n =>
+    simp only [step] at h
+    split at h
+    · cases h
+    · split at h
+      · cases h; rfl
+      · split at h
+        · cases h; rfl
+        · cases h
+  | copyCtor i j =>
+    simp only [step] at h
+    split at h
+    · rename_i x _ _
+      cases hm : memcpyIf (alloc s x.sz).1 (some (alloc s x.sz).2) x.rep x.sz with
+      | error e => simp [hm, bind, Except.bind] at h
+      | ok s2 =>
+        simp only [hm, bind, Except.bind] at h; cases h
+        have := memcpyIf_ubNull hm
+        simp only [setObj]; rw [this]; rfl
+    · cases h
+  | moveCtor i j =>
+    simp only [step] at h
+    split at h
+    · cases h; rfl
+    · cases h
+  | assign i j =>
+    simp only [step] at h
+    split at h
+    · rename_i t x _ _
+      split at h
+      · cases h; rfl
+      · split at h
+        · exact memcpyIf_ubNull h
+        · split at h
+          · rename_i hx
+            rcases htr : t.rep with _ | a0 <;> simp only [htr, bind, Except.bind] at h <;>
+            · split at h
+              · cases h
+              · rename_i v hm
+                cases h
+                have := memcpy_ubNull (Nat.ne_of_gt hx) hm
+                simp only [setObj]; rw [this]; rfl
+          · cases h
+            simp only [setObj]; cases t.rep <;> rfl
+    · cases h
+  | moveAssign i j =>
+    simp only [step] at h
+    split at h
+    · rename_i t x _ _
+      split at h
+      · cases h; rfl
+      · cases hf : free s t.rep with
+        | error e => simp [hf, bind, Except.bind] at h
+        | ok s1 =>
+          simp only [hf, bind, Except.bind] at h; cases h
+          exact (show _ = s1.ubNull from rfl).trans (free_ubNull hf)
+    · cases h
+  | resize i n =>
+    simp only [step] at h
+    split at h
+    · rename_i t _
+      split at h
+      · cases h; rfl
+      · cases hf : free s t.rep with
+        | error e => simp [hf, bind, Except.bind] at h
+        | ok s1 =>
+          simp only [hf, bind, Except.bind] at h
+          split at h
+          · cases h; exact (show _ = s1.ubNull from rfl).trans (free_ubNull hf)
+          · cases h; exact (show _ = s1.ubNull from rfl).trans (free_ubNull hf)
+    · cases h
+  | write i k v =>
+    simp only [step] at h
+    split at h
+    · split at h
+      · split at h
+        · split at h
+          · cases h; rfl
+          · cases h
+        · cases h
+      · cases h
+    · cases h
+  | dtor i =>
+    simp only [step] at h
+    split at h
+    · rename_i t _
+      cases hf : free s t.rep with
+      | error e => simp [hf, bind, Except.bind] at h
+      | ok s1 =>
+        simp only [hf, bind, Except.bind] at h; cases h
+        exact (show _ = s1.ubNull from rfl).trans (free_ubNull hf)
+    · cases h
+
+theorem run_ubNull (ops : List (Op K)) : ∀ {s s' : St K}, run s ops = .ok s' → s'.ubNull = s.ubNull := by
+  induction ops with
+  | nil => intro s s' h; simp only [run] at h; cases h; rfl
+  | cons op ops ih =>
+    intro s s' h
+    unfold run at h
+    cases hs : step s op with
+    | error e => simp [hs, bind, Except.bind] at h
+    | ok s1 =>
+      simp only [hs, bind, Except.bind] at h
+      rw [ih h, step_ubNull hs]
 
 end Gama.MemRep
